@@ -374,7 +374,15 @@ def rule_all_small_graphs(a: Analysis, rule_id: str, tier: str) -> RuleReport:
         masks = sorted(small | set(range(0, 1 << len(all_edges), 8)))
         rep.floor = len(masks)
         rep.text += ' [quick tier: all 16 two-rule graphs and every 8th three-rule graph; the thorough tier enumerates all 512]'
-    for mask in masks:
+    plan = [(names, all_edges, masks, bad_known)]
+    bad4: list[str] = []
+    if tier == 'thorough':
+        names4 = ('a', 'b', 'c', 'd')
+        edges4 = [(u, v) for u in names4 for v in names4]
+        plan.append((names4, edges4, list(range(5, 1 << len(edges4), 16)), bad4))
+        rep.text += ' [thorough tier: plus every 16th of the 65 536 graphs over four rules]'
+    for names, all_edges, masks_, bad_list in plan:
+      for mask in masks_:
         edges = {e for i, e in enumerate(all_edges) if mask >> i & 1}
         rules = []
         for n in names:
@@ -416,7 +424,7 @@ def rule_all_small_graphs(a: Analysis, rule_id: str, tier: str) -> RuleReport:
                 if common:
                     excusable = False
             if excusable:
-                bad_known.append(gtxt)
+                bad_list.append(gtxt)
             else:
                 problems.append(('leader', f'graph [{gtxt}]: cycle(s) {unguarded} contain no marked rule (marked: {sorted(marked)}) although '
                                            f'their component has a rule that lies on all of its cycles: the wrong leader was chosen, the '
@@ -429,5 +437,5 @@ def rule_all_small_graphs(a: Analysis, rule_id: str, tier: str) -> RuleReport:
                  f'{len(bad_known)} of the {len(masks)} graphs have a component whose cycles share no rule (e.g. [{bad_known[0]}]): '
                  f'mark_left_recursion marks a single leader per component, so one of the cycles has no marked rule and no runtime '
                  f'guard - parsing recurses without bound (RecursionError)', fn.loc)
-    rep.notes.append(f'graphs with a component whose cycles share no rule: {len(bad_known)}')
+    rep.notes.append(f'graphs with a component whose cycles share no rule: {len(bad_known)} (three rules)' + (f', {len(bad4)} of the sampled four-rule graphs' if tier == 'thorough' else ''))
     return rep
